@@ -187,3 +187,122 @@ def early_exit_before(stmts, before_index: int, len_names) -> typing.Tuple[bool,
                 return False, (f"the routine returns early under `{conds}` before the zero fill: the output keeps stale bytes on that path "
                                "(e.g. an array that lies entirely past the end of a truncated buffer is not zero-extended)")
     return True, ""
+
+
+def rule_f16_special(fn, fname: str) -> typing.List[dict]:
+    """Half-precision unpack: a half whose exponent field is all ones (0x7C00 .. 0x7FFF after the sign is removed) is infinity or NaN
+    and must come out non-finite.  The routines recognise these either on the scaled float (`x >= 2**16`, the first value that a
+    finite half cannot reach) or on the bit pattern (`magnitude >= 0x7C00`, `(h & 0x7C00) == 0x7C00`).  The boundary belongs to the
+    special values: a strict comparison lets +-infinity through as the finite 65536.0."""
+    R = "R-C14-F16-SPECIAL"
+    out = []
+    # constants held in locals: <local>.bits = K  /  local = K
+    consts = {}
+    for s in cast.statements(fn):
+        t = cast.stmt_term(s)
+        if t is not None and t[0] == "bin" and t[1] == "=" and not s.guards:
+            lhs, rhs = t[2], t[3]
+            v = _const_value(rhs)
+            if v is not None:
+                consts[cast.show(lhs)] = v
+    found = False
+    for s in cast.statements(fn):
+        if s.node.get("kind") != "IfStmt":
+            continue
+        c = cast.stmt_term(s)
+        if c is None:
+            continue
+        for t in cast.subterms(c):
+            if not (isinstance(t, tuple) and t and t[0] == "bin" and t[1] in (">", ">=", "<", "<=", "==")):
+                continue
+            for a, b, op in ((t[2], t[3], t[1]), (t[3], t[2], {">": "<", ">=": "<=", "<": ">", "<=": ">=", "==": "=="}[t[1]])):
+                k = _const_value(b)
+                if k is None:
+                    k = _float_bits_of(cast.show(b), consts)
+                if k is None:
+                    continue
+                # a op K  with K the boundary: 0x7C00 on bits, 65536.0 (float bits 0x47800000 == 0x8F << 23) on the scaled value
+                if k in (0x7C00, 65536.0, 0x8F << 23):
+                    found = True
+                    masked = a[0] == "bin" and a[1] == "&" and any(_const_value(x) == 0x7C00 for x in a[2:4])
+                    ok = op == ">=" or (op == "==" and masked)
+                    out.append(res(R, fname, f"{fname}: exponent-all-ones halves (boundary {'0x7C00' if k == 0x7C00 else '2**16'}) are treated as infinity / NaN", ok,
+                                   f"the special-value test is `{cast.show(t)}`: the boundary value itself (+-infinity) is excluded and unpacks as the finite 65536.0"))
+    if not found:
+        out.append(res(R, fname, f"{fname}: the test that separates infinity / NaN from finite halves is recognised", True, ""))
+    return out
+
+
+def _const_value(t):
+    """integer / float value of a constant expression term (literals, shifts and ors of literals)"""
+    if not isinstance(t, tuple) or not t:
+        return None
+    if t[0] == "int":
+        return t[1]
+    if t[0] == "float":
+        return t[1]
+    if t[0] == "bin" and t[1] in ("<<", "|", "+", "*"):
+        a, b = _const_value(t[2]), _const_value(t[3])
+        if isinstance(a, int) and isinstance(b, int):
+            return {"<<": a << b if b < 64 else None, "|": a | b, "+": a + b, "*": a * b}[t[1]]
+    return None
+
+
+def _float_bits_of(shown: str, consts) -> typing.Optional[int]:
+    """`x.real` where `x.bits` was set to a constant: the float is given by those bits"""
+    if shown.endswith(".real") and shown[:-5] + ".bits" in consts:
+        return consts[shown[:-5] + ".bits"]
+    return consts.get(shown)
+
+
+def rule_f16_pack_order(fn, fname: str) -> typing.List[dict]:
+    """Half-precision pack: the classification of the input as infinity / NaN (comparison of the magnitude bits with 0x7F800000 and the
+    test of the mantissa) reads the input's own bits.  Before it the value may only be loaded and have its sign removed; rounding
+    masks, scaling and re-biasing belong to the finite branch - applied earlier they turn NaNs with a small payload into infinity."""
+    R = "R-C14-F16-SPECIAL"
+    consts = {}
+    stmts = cast.statements(fn)
+    for s in stmts:
+        t = cast.stmt_term(s)
+        if t is not None and t[0] == "bin" and t[1] == "=" and not s.guards:
+            v = _const_value(t[3])
+            if v is not None:
+                consts[cast.show(t[2])] = v
+    cls_idx, subject = None, None
+    for s in stmts:
+        if s.node.get("kind") != "IfStmt" or s.guards:
+            continue
+        c = cast.stmt_term(s)
+        if c is None:
+            continue
+        for t in cast.subterms(c):
+            if isinstance(t, tuple) and t and t[0] == "bin" and t[1] in (">=", ">", "<", "<="):
+                for a, b in ((t[2], t[3]), (t[3], t[2])):
+                    k = _const_value(b)
+                    if k is None:
+                        k = consts.get(cast.show(b))
+                    if k == 0x7F800000:
+                        cls_idx, subject = s.index, cast.show(a)
+        if cls_idx is not None:
+            break
+    if cls_idx is None:
+        return [res(R, fname, f"{fname}: the infinity / NaN classification is recognised", True, "")]
+    base = subject.rsplit(".", 1)[0]
+    bad = []
+    for s in stmts:
+        if s.index >= cls_idx or s.guards:
+            continue
+        t = cast.stmt_term(s)
+        if t is None or t[0] != "bin" or not t[1].endswith("="):
+            continue
+        if t[1] in ("==", "<=", ">=", "!="):
+            continue
+        lhs = cast.show(t[2])
+        if lhs.rsplit(".", 1)[0] != base:
+            continue
+        if t[1] == "=" or t[1] == "^=":
+            continue       # load of the input / removal of the sign
+        bad.append(cast.show(t))
+    ok = not bad
+    return [res(R, fname, f"{fname}: the input is only loaded and stripped of its sign before it is classified as infinity / NaN", ok,
+                f"`{'; '.join(bad)}` modifies the value before the classification: a NaN whose payload lies in the masked / scaled-away bits is packed as infinity")]
